@@ -19,6 +19,9 @@ CLAIMED = {
  "C18": dict(engine="W", cat="exploration", tech="deterministic simulation: seeded operation histories (init/showconfig/run interleaved with harness mutations of the config path) on a simulated project tree, snapshot after every operation, tree model + differential default check",
    text="Seeded histories of 2-10 operations on one generated project tree: `mockery init <string>` with any --config target (default, relative, nested, absolute, missing parent) and any package string (real packages and 36 YAML-significant strings, each initialised and loaded back at least twice), showconfig, plain runs, and harness mutations/deletions of the target (empty, hand-written, binary content). Around every operation the whole tree is snapshotted and compared with a tree model: init on a present target changes nothing and fails; on an absent target it creates exactly that file; the file parses as YAML with exactly one package key byte-identical to the argument, is accepted by mockery's own loader with the key unchanged, resolves to the same configuration as the loader's defaults (differential), and for a real package a following plain run generates a mock for every interface.",
    ref="§4 C18", note="Trusted: 'documented defaults' are taken to be the loader's own defaults (differential showconfig), not the docs table; behaviour for a missing parent directory is only held to all-or-nothing."),
+ "C15": dict(engine="W", cat="exploration", tech="deterministic simulation: seeded call histories on the real allocator objects under seeded map-iteration schedules (bulk in-process driver built from the instrumented tree + generated probe templates in real CLI runs), judged by a set model and a twin-scope differential",
+   text="Seeded histories (5-60 operations plus probes) of AllocateName/SuggestName/AddName/NameExists on the scopes of two methods with identical signatures - built exactly as the generator builds them - and of AddImport/Imports/PkgQualifier on the file registry, with prefixes, names and (path, package name) pairs drawn to collide with parameters, qualifiers, earlier results and digit-suffixed names; some histories hammer one prefix. Each history runs under asc, desc and random iteration orders at the instrumented range sites in template/ and the three result vectors must agree. Oracle: every allocated name is new to the scope; NameExists is monotone and true for allocated/added names; the twin scope that additionally receives SuggestName calls returns identical results; AddImport is a function of the path, injective on paths, never returns another import's qualifier; Imports is strictly ascending by path, complete and duplicate-free; PkgQualifier agrees. ~90 000 histories per quick run in process, 150 end to end.",
+   ref="§4 C15", note="Trusted: the model treats as visible only what the scope was told or reported (parameters, NameExists=true, allocated, added); a path has one package name."),
 }
 NA = {
  "C01": "pure (sources, configuration) -> bytes relation with no schedule, clock, fault or carried state; its only order-dependence residue is decided by C06",
